@@ -10,11 +10,15 @@
 // After a successful asynchronous reception the receiver scribbles over its slot / buffer; the scribble is verified when the
 // simulation is over (a late second copy of the payload would destroy it).
 //
-// stdin:
-//   P <nhosts> <bw>,<lat> [<bw>,<lat> ...]          platform: full zone, route(i,j) over link (3i+7j)%L (+ a 2nd one when (i+j)%3==0)
-//   M <P|B> ...                                      one letter per mailbox: P = pointer payloads, B = buffer copies
-//   Q <n>                                            number of message queues
-//   A <op> <op> ...                                  one line per actor
+// stdin (one process may run a batch of scenarios = "groups", one after the other in simulated time):
+//   P <nhosts> <bw>,<lat> [<bw>,<lat> ...]          platform (once): full zone, route(i,j) over link (3i+7j)%L (+ a 2nd one when (i+j)%3==0)
+//   N                                                starts the next group (optional before the first one)
+//   M <P|B> ...                                      one letter per mailbox of the group: P = pointer payloads, B = buffer copies
+//   Q <n>                                            number of message queues of the group
+//   A <op> <op> ...                                  one line per actor of the group
+// Group k has its own mailboxes / queues / actors; its actors start at date k*GAP and everything a group can do (transfers,
+// the "never firing" API timeouts of 1e6 s) is over long before (k+1)*GAP, so that the groups do not interact.
+// Every output line is prefixed with "@<group> ".
 // see lib/verif/gen/mbq.py for the list of ops.
 #include <simgrid/s4u.hpp>
 #include <simgrid/s4u/MessageQueue.hpp>
@@ -36,8 +40,10 @@
 namespace sg4 = simgrid::s4u;
 using simgrid::kernel::activity::CommImpl;
 
+constexpr double GAP = 1e7;
 struct Msg {
   uint32_t magic;
+  int group;
   int sender;
   int seq;
   int mbox;
@@ -47,6 +53,7 @@ struct Msg {
 static uint64_t msg_ck(const Msg& m)
 {
   uint64_t x = 0x9E3779B97F4A7C15ULL ^ m.magic;
+  x = (x ^ (uint64_t)(uint32_t)m.group) * 0x100000001B3ULL;
   x = (x ^ (uint64_t)(uint32_t)m.sender) * 0x100000001B3ULL;
   x = (x ^ (uint64_t)(uint32_t)m.seq) * 0x100000001B3ULL;
   x = (x ^ (uint64_t)(uint32_t)m.mbox) * 0x100000001B3ULL;
@@ -54,6 +61,7 @@ static uint64_t msg_ck(const Msg& m)
   return x;
 }
 struct BufRec {
+  int group;
   int sender;
   int seq;
   size_t n;
@@ -93,14 +101,14 @@ static void copy_cb(CommImpl* comm, void* buff, size_t n)
   auto it = g_bufs.find(buff);
   if (it != g_bufs.end()) {
     it->second.copies++;
-    printf("COPY mid=%d.%d n=%zu k=%d\n", it->second.sender, it->second.seq, n, it->second.copies);
+    printf("@%d COPY mid=%d.%d n=%zu k=%d\n", it->second.group, it->second.sender, it->second.seq, n, it->second.copies);
   } else
-    printf("COPY mid=? n=%zu\n", n);
+    printf("@-1 COPY mid=? n=%zu\n", n);
   if (comm->dst_buff_ != nullptr)
     memcpy(comm->dst_buff_, buff, n);
 }
 
-static std::string describe_ptr(const void* p)
+static std::string describe_ptr(const void* p, int g)
 {
   char b[160];
   if (p == nullptr)
@@ -111,6 +119,8 @@ static std::string describe_ptr(const void* p)
   if (it == g_msgs.end())
     return "got=BADPTR";
   const Msg* m = it->second;
+  if (m->group != g)
+    return "got=FOREIGN-GROUP";
   snprintf(b, sizeof b, "got=%d.%d mb=%d size=%" PRIu64 " ck=%d", m->sender, m->seq, m->mbox, m->size,
            (m->magic == 0xC0FFEEu && m->ck == msg_ck(*m)) ? 1 : 0);
   return b;
@@ -127,6 +137,7 @@ struct Handle {
   sg4::Activity* act() const { return comm ? static_cast<sg4::Activity*>(comm.get()) : static_cast<sg4::Activity*>(mess.get()); }
 };
 struct Scrib {
+  int g;
   int h;
   Msg** slot;
   unsigned char* dst;
@@ -150,14 +161,14 @@ static bool all_eq(const unsigned char* p, size_t n, unsigned char v)
   return true;
 }
 /* what a buffer reception delivered; rn = received size as reported by the API */
-static std::string describe_buf(const unsigned char* dst, size_t cap, size_t rn, const void* payload_ptr, bool have_payload_ptr)
+static std::string describe_buf(const unsigned char* dst, size_t cap, size_t rn, const void* payload_ptr, bool have_payload_ptr, int g)
 {
   std::ostringstream o;
   o << "rn=" << rn << " cap=" << cap;
   const BufRec* rec = nullptr;
   if (have_payload_ptr) {
     auto it = g_bufs.find(payload_ptr);
-    if (it != g_bufs.end()) {
+    if (it != g_bufs.end() && it->second.group == g) {
       rec = &it->second;
       o << " pmid=" << rec->sender << "." << rec->seq;
     } else
@@ -173,7 +184,7 @@ static std::string describe_buf(const unsigned char* dst, size_t cap, size_t rn,
     o << " got=" << s << "." << q << " n=" << n;
     if (rec == nullptr)
       for (auto const& [p, r] : g_bufs)
-        if (r.sender == s && r.seq == q)
+        if (r.group == g && r.sender == s && r.seq == q)
           rec = &r;
   } else
     o << " got=?";
@@ -196,7 +207,9 @@ static std::vector<std::string> split(const std::string& s, char sep)
   return out;
 }
 
+#define P(fmt, ...) printf("@%d " fmt, g, ##__VA_ARGS__)
 struct Actor {
+  int g;
   int a;
   std::vector<std::string> ops;
   std::vector<sg4::Mailbox*> mbs;
@@ -207,7 +220,7 @@ struct Actor {
 
   Msg* new_msg(int mb, uint64_t size)
   {
-    auto* m = new Msg{0xC0FFEEu, a, seq++, mb, size, 0};
+    auto* m = new Msg{0xC0FFEEu, g, a, seq++, mb, size, 0};
     m->ck   = msg_ck(*m);
     g_msgs[m] = m;
     return m;
@@ -224,7 +237,7 @@ struct Actor {
       memcpy(b + 4, sq, 4);
       memcpy(b + 8, &nn, 4);
     }
-    g_bufs[b] = BufRec{a, *sq, n, b, 0};
+    g_bufs[b] = BufRec{g, a, *sq, n, b, 0};
     return b;
   }
   /* result of a finished reception handle (and scribble over the slot / buffer) */
@@ -234,22 +247,22 @@ struct Actor {
     switch (hd.kind) {
       case 'G':
       case 'q':
-        d        = describe_ptr(*hd.slot);
+        d        = describe_ptr(*hd.slot, g);
         *hd.slot = SCRIBBLE;
-        g_scribs.push_back({hd.h, hd.slot, nullptr, 0});
+        g_scribs.push_back({g, hd.h, hd.slot, nullptr, 0});
         break;
       case 'g':
-        d = describe_ptr(hd.comm->get_payload());
+        d = describe_ptr(hd.comm->get_payload(), g);
         break;
       case 'r':
-        d = describe_ptr(hd.mess->get_payload());
+        d = describe_ptr(hd.mess->get_payload(), g);
         break;
       case 'B': {
         size_t rn = hd.comm->get_dst_data_size();
         bool have = hd.comm->get_impl() != nullptr;
-        d         = describe_buf(hd.dst, hd.cap, rn, have ? hd.comm->get_payload() : nullptr, have);
+        d         = describe_buf(hd.dst, hd.cap, rn, have ? hd.comm->get_payload() : nullptr, have, g);
         memset(hd.dst, 0x5C, hd.cap);
-        g_scribs.push_back({hd.h, nullptr, hd.dst, hd.cap});
+        g_scribs.push_back({g, hd.h, nullptr, hd.dst, hd.cap});
         break;
       }
       default:
@@ -265,26 +278,29 @@ struct Actor {
         return;
       }
   }
-  void do_wait(Handle hd, double timeout, const char* opname)
+  /* keep: on timeout the handle stays pending and nothing is cancelled (plain Activity::wait_for) */
+  void do_wait(Handle hd, double timeout, const char* opname, bool keep = false)
   {
-    printf("C %d %d %s h=%d t=%.9g\n", a, i, opname, hd.h, timeout);
+    P("C %d %d %s h=%d t=%.9g\n", a, i, opname, hd.h, timeout);
     try {
       if (timeout < 0)
         hd.act()->wait();
       else
         hd.act()->wait_for(timeout);
       std::string d = harvest(hd);
-      printf("R %d %d %s h=%d st=ok %s\n", a, i, opname, hd.h, d.c_str());
+      P("R %d %d %s h=%d st=ok %s\n", a, i, opname, hd.h, d.c_str());
       drop(hd.h);
     } catch (const simgrid::TimeoutException&) {
-      printf("R %d %d %s h=%d st=timeout\n", a, i, opname, hd.h);
+      P("R %d %d %s h=%d st=timeout\n", a, i, opname, hd.h);
+      if (keep)
+        return;
       // what wait_for_or_cancel() does, as two logged steps
-      printf("C %d %d cancel h=%d\n", a, i, hd.h);
+      P("C %d %d cancel h=%d\n", a, i, hd.h);
       hd.act()->cancel();
-      printf("R %d %d cancel h=%d st=ok\n", a, i, hd.h);
+      P("R %d %d cancel h=%d st=ok\n", a, i, hd.h);
       drop(hd.h);
     } catch (const simgrid::Exception& e) {
-      printf("R %d %d %s h=%d st=fail:%s\n", a, i, opname, hd.h, typeid(e).name());
+      P("R %d %d %s h=%d st=fail:%s\n", a, i, opname, hd.h, typeid(e).name());
       drop(hd.h);
     }
   }
@@ -303,12 +319,12 @@ struct Actor {
           sg4::this_actor::yield();
         } else if (op == "setr") {
           int m = (int)num(1), v = (int)num(2);
-          printf("C %d %d setr m=%d v=%d\n", a, i, m, v);
+          P("C %d %d setr m=%d v=%d\n", a, i, m, v);
           if (v)
             mbs[m]->set_receiver(sg4::Actor::self());
           else
             mbs[m]->set_receiver(nullptr);
-          printf("R %d %d setr m=%d st=ok\n", a, i, m);
+          P("R %d %d setr m=%d st=ok\n", a, i, m);
         } else if (op == "put" || op == "putw" || op == "puta" || op == "putd" || op == "putf" || op == "putT") {
           int m         = (int)num(1);
           uint64_t size = (uint64_t)num(2);
@@ -316,26 +332,26 @@ struct Actor {
           int h         = g_next_handle++;
           if (op == "putf") {
             auto* md = new MatchData{a, (int)num(3), (int)num(4), (int)num(5)};
-            printf("C %d %d putf m=%d h=%d mid=%d.%d size=%" PRIu64 " tag=%d fk=%d want=%d\n", a, i, m, h, a, msg->seq, size, md->tag,
+            P("C %d %d putf m=%d h=%d mid=%d.%d size=%" PRIu64 " tag=%d fk=%d want=%d\n", a, i, m, h, a, msg->seq, size, md->tag,
                    md->fk, md->want);
             try {
               if (md->fk != 0)
                 sg4::Comm::send(self, mbs[m], (double)size, -1.0, msg, sizeof(void*), match_fun, nullptr, md, -1.0);
               else
                 sg4::Comm::send(self, mbs[m], (double)size, -1.0, msg, sizeof(void*), nullptr, nullptr, md, -1.0);
-              printf("R %d %d putf h=%d st=ok\n", a, i, h);
+              P("R %d %d putf h=%d st=ok\n", a, i, h);
             } catch (const simgrid::Exception& e) {
-              printf("R %d %d putf h=%d st=fail:%s\n", a, i, h, typeid(e).name());
+              P("R %d %d putf h=%d st=fail:%s\n", a, i, h, typeid(e).name());
             }
             continue;
           }
           double rate = num(3, -1);
-          printf("C %d %d %s m=%d h=%d mid=%d.%d size=%" PRIu64 " rate=%.9g\n", a, i, op.c_str(), m, h, a, msg->seq, size, rate);
+          P("C %d %d %s m=%d h=%d mid=%d.%d size=%" PRIu64 " rate=%.9g\n", a, i, op.c_str(), m, h, a, msg->seq, size, rate);
           try {
             if (op == "put") {
               mbs[m]->put(msg, size);
             } else if (op == "putT") { // real API with a timeout that never fires
-              mbs[m]->put(msg, size, 1e7);
+              mbs[m]->put(msg, size, 1e6);
             } else if (op == "putw") { // wait() on a comm that was not started: one blocking simcall
               auto c = mbs[m]->put_init(msg, size);
               if (rate > 0)
@@ -355,21 +371,21 @@ struct Actor {
               mbs[m]->put_init(msg, size)->detach([](void* p) {
                 auto it = g_msgs.find(p);
                 if (it != g_msgs.end())
-                  printf("CLEAN mid=%d.%d\n", it->second->sender, it->second->seq);
+                  printf("@%d CLEAN mid=%d.%d\n", it->second->group, it->second->sender, it->second->seq);
                 else
-                  printf("CLEAN mid=?\n");
+                  printf("@-1 CLEAN mid=?\n");
               });
             }
-            printf("R %d %d %s h=%d st=ok\n", a, i, op.c_str(), h);
+            P("R %d %d %s h=%d st=ok\n", a, i, op.c_str(), h);
           } catch (const simgrid::Exception& e) {
-            printf("R %d %d %s h=%d st=fail:%s\n", a, i, op.c_str(), h, typeid(e).name());
+            P("R %d %d %s h=%d st=fail:%s now=%.17g\n", a, i, op.c_str(), h, typeid(e).name(), sg4::Engine::get_clock());
           }
         } else if (op == "get" || op == "getT" || op == "getw" || op == "geta" || op == "getp" || op == "getf") {
           int m = (int)num(1);
           int h = g_next_handle++;
           if (op == "getf") {
             auto* md = new MatchData{a, (int)num(2), (int)num(3), (int)num(4)};
-            printf("C %d %d getf m=%d h=%d tag=%d fk=%d want=%d\n", a, i, m, h, md->tag, md->fk, md->want);
+            P("C %d %d getf m=%d h=%d tag=%d fk=%d want=%d\n", a, i, m, h, md->tag, md->fk, md->want);
             Msg* res  = nullptr;
             size_t sz = sizeof(void*);
             try {
@@ -377,27 +393,27 @@ struct Actor {
                 sg4::Comm::recv(self, mbs[m], &res, &sz, match_fun, nullptr, md, -1.0, -1.0);
               else
                 sg4::Comm::recv(self, mbs[m], &res, &sz, nullptr, nullptr, md, -1.0, -1.0);
-              printf("R %d %d getf h=%d st=ok %s rsz=%zu\n", a, i, h, describe_ptr(res).c_str(), sz);
+              P("R %d %d getf h=%d st=ok %s rsz=%zu\n", a, i, h, describe_ptr(res, g).c_str(), sz);
             } catch (const simgrid::Exception& e) {
-              printf("R %d %d getf h=%d st=fail:%s\n", a, i, h, typeid(e).name());
+              P("R %d %d getf h=%d st=fail:%s\n", a, i, h, typeid(e).name());
             }
             continue;
           }
-          printf("C %d %d %s m=%d h=%d\n", a, i, op.c_str(), m, h);
+          P("C %d %d %s m=%d h=%d\n", a, i, op.c_str(), m, h);
           try {
             if (op == "get") {
               Msg* p = mbs[m]->get<Msg>();
-              printf("R %d %d get h=%d st=ok %s\n", a, i, h, describe_ptr(p).c_str());
+              P("R %d %d get h=%d st=ok %s\n", a, i, h, describe_ptr(p, g).c_str());
             } else if (op == "getT") {
-              Msg* p = mbs[m]->get<Msg>(1e7);
-              printf("R %d %d getT h=%d st=ok %s\n", a, i, h, describe_ptr(p).c_str());
+              Msg* p = mbs[m]->get<Msg>(1e6);
+              P("R %d %d getT h=%d st=ok %s\n", a, i, h, describe_ptr(p, g).c_str());
             } else if (op == "getw") {
               auto** slot = new Msg*(nullptr);
               auto c      = mbs[m]->get_init()->set_dst_data(reinterpret_cast<void**>(slot), sizeof(void*));
               c->wait();
-              printf("R %d %d getw h=%d st=ok %s rsz=%zu\n", a, i, h, describe_ptr(*slot).c_str(), c->get_dst_data_size());
+              P("R %d %d getw h=%d st=ok %s rsz=%zu\n", a, i, h, describe_ptr(*slot, g).c_str(), c->get_dst_data_size());
               *slot = SCRIBBLE;
-              g_scribs.push_back({h, slot, nullptr, 0});
+              g_scribs.push_back({g, h, slot, nullptr, 0});
             } else {
               Handle hd;
               hd.h = h;
@@ -410,10 +426,10 @@ struct Actor {
                 hd.comm = mbs[m]->get_async();
               }
               pend.push_back(hd);
-              printf("R %d %d %s h=%d st=ok\n", a, i, op.c_str(), h);
+              P("R %d %d %s h=%d st=ok\n", a, i, op.c_str(), h);
             }
           } catch (const simgrid::Exception& e) {
-            printf("R %d %d %s h=%d st=fail:%s\n", a, i, op.c_str(), h, typeid(e).name());
+            P("R %d %d %s h=%d st=fail:%s now=%.17g\n", a, i, op.c_str(), h, typeid(e).name(), sg4::Engine::get_clock());
           }
         } else if (op == "bput" || op == "bputs" || op == "bputa" || op == "bputd") {
           int m        = (int)num(1);
@@ -422,7 +438,7 @@ struct Actor {
           int sq;
           unsigned char* src = new_src(n, &sq);
           int h              = g_next_handle++;
-          printf("C %d %d %s m=%d h=%d mid=%d.%d n=%zu size=%" PRIu64 "\n", a, i, op.c_str(), m, h, a, sq, n, sim);
+          P("C %d %d %s m=%d h=%d mid=%d.%d n=%zu size=%" PRIu64 "\n", a, i, op.c_str(), m, h, a, sq, n, sim);
           try {
             auto c = mbs[m]->put_init()->set_payload_size(sim)->set_src_data(src, n)->set_copy_data_callback(copy_cb);
             if (op == "bput")
@@ -439,15 +455,15 @@ struct Actor {
               hd.comm = c;
               pend.push_back(hd);
             }
-            printf("R %d %d %s h=%d st=ok\n", a, i, op.c_str(), h);
+            P("R %d %d %s h=%d st=ok\n", a, i, op.c_str(), h);
           } catch (const simgrid::Exception& e) {
-            printf("R %d %d %s h=%d st=fail:%s\n", a, i, op.c_str(), h, typeid(e).name());
+            P("R %d %d %s h=%d st=fail:%s\n", a, i, op.c_str(), h, typeid(e).name());
           }
         } else if (op == "bget" || op == "bgets" || op == "bgeta") {
           int m      = (int)num(1);
           size_t cap = (size_t)num(2);
           int h      = g_next_handle++;
-          printf("C %d %d %s m=%d h=%d cap=%zu\n", a, i, op.c_str(), m, h, cap);
+          P("C %d %d %s m=%d h=%d cap=%zu\n", a, i, op.c_str(), m, h, cap);
           try {
             Handle hd;
             hd.h    = h;
@@ -458,23 +474,23 @@ struct Actor {
             if (op == "bgeta") {
               hd.comm->start();
               pend.push_back(hd);
-              printf("R %d %d bgeta h=%d st=ok\n", a, i, h);
+              P("R %d %d bgeta h=%d st=ok\n", a, i, h);
             } else {
               if (op == "bgets")
                 hd.comm->start();
               hd.comm->wait();
               std::string d = harvest(hd);
-              printf("R %d %d %s h=%d st=ok %s\n", a, i, op.c_str(), h, d.c_str());
+              P("R %d %d %s h=%d st=ok %s\n", a, i, op.c_str(), h, d.c_str());
             }
           } catch (const simgrid::Exception& e) {
-            printf("R %d %d %s h=%d st=fail:%s\n", a, i, op.c_str(), h, typeid(e).name());
+            P("R %d %d %s h=%d st=fail:%s\n", a, i, op.c_str(), h, typeid(e).name());
           }
         } else if (op == "qput" || op == "qputt" || op == "qputa" || op == "qputd") {
           int q    = (int)num(1);
           Msg* msg = new_msg(q, 0);
           int h    = g_next_handle++;
           double to = num(2, -1);
-          printf("C %d %d %s m=%d h=%d mid=%d.%d t=%.9g\n", a, i, op.c_str(), q, h, a, msg->seq, to < 0 ? -1 : to * 1e-6);
+          P("C %d %d %s m=%d h=%d mid=%d.%d t=%.9g\n", a, i, op.c_str(), q, h, a, msg->seq, to < 0 ? -1 : to * 1e-6);
           try {
             if (op == "qput")
               qs[q]->put(msg);
@@ -489,29 +505,54 @@ struct Actor {
               hd.mess = qs[q]->put_async(msg);
               pend.push_back(hd);
             }
-            printf("R %d %d %s h=%d st=ok\n", a, i, op.c_str(), h);
+            P("R %d %d %s h=%d st=ok\n", a, i, op.c_str(), h);
           } catch (const simgrid::TimeoutException&) {
-            printf("R %d %d %s h=%d st=timeout\n", a, i, op.c_str(), h);
+            P("R %d %d %s h=%d st=timeout\n", a, i, op.c_str(), h);
           } catch (const simgrid::Exception& e) {
-            printf("R %d %d %s h=%d st=fail:%s\n", a, i, op.c_str(), h, typeid(e).name());
+            P("R %d %d %s h=%d st=fail:%s\n", a, i, op.c_str(), h, typeid(e).name());
           }
-        } else if (op == "qget" || op == "qgett" || op == "qgeta" || op == "qgetp" || op == "qgetw") {
+        } else if (op == "qget" || op == "qgett" || op == "qgeta" || op == "qgetp" || op == "qgetw" || op == "qgets" || op == "qgetts") {
           int q     = (int)num(1);
           int h     = g_next_handle++;
           double to = num(2, -1);
-          printf("C %d %d %s m=%d h=%d t=%.9g\n", a, i, op.c_str(), q, h, to < 0 ? -1 : to * 1e-6);
+          P("C %d %d %s m=%d h=%d t=%.9g\n", a, i, op.c_str(), q, h, to < 0 ? -1 : to * 1e-6);
           try {
             if (op == "qget") {
               Msg* p = qs[q]->get<Msg>();
-              printf("R %d %d qget h=%d st=ok %s\n", a, i, h, describe_ptr(p).c_str());
+              P("R %d %d qget h=%d st=ok %s\n", a, i, h, describe_ptr(p, g).c_str());
             } else if (op == "qgett") {
               Msg* p = qs[q]->get<Msg>(to * 1e-6);
-              printf("R %d %d qgett h=%d st=ok %s\n", a, i, h, describe_ptr(p).c_str());
+              P("R %d %d qgett h=%d st=ok %s\n", a, i, h, describe_ptr(p, g).c_str());
+            } else if (op == "qgets" || op == "qgetts") {
+              // the body of MessageQueue::get<T>() / get<T>(timeout) with the result slot on the heap instead of the caller's stack,
+              // so that a late or repeated delivery is observed (scribble check) instead of corrupting a dead stack frame
+              auto** slot = new Msg*(nullptr);
+              g_scribs.push_back({g, h, slot, nullptr, 0});
+              bool timedout = false;
+              try {
+                if (op == "qgets")
+                  qs[q]->get_async<Msg>(slot)->wait();
+                else
+                  qs[q]->get_async<Msg>(slot)->wait_for(to * 1e-6);
+              } catch (const simgrid::TimeoutException&) {
+                timedout = true;
+              }
+              if (timedout) {
+                // the slot stays registered: a payload written into it later on shows a get that was over and still consumed a put
+                if (*slot != nullptr)
+                  P("R %d %d %s h=%d st=timeout-but-%s\n", a, i, op.c_str(), h, describe_ptr(*slot, g).c_str());
+                else
+                  P("R %d %d %s h=%d st=timeout\n", a, i, op.c_str(), h);
+                *slot = SCRIBBLE;
+              } else {
+                P("R %d %d %s h=%d st=ok %s\n", a, i, op.c_str(), h, describe_ptr(*slot, g).c_str());
+                *slot = SCRIBBLE;
+              }
             } else if (op == "qgetw") { // wait() on a get that was not started
               auto** slot = new Msg*(nullptr);
               auto c      = qs[q]->get_init()->set_dst_data(reinterpret_cast<void**>(slot), sizeof(void*));
               c->wait();
-              printf("R %d %d qgetw h=%d st=ok %s\n", a, i, h, describe_ptr(*slot).c_str());
+              P("R %d %d qgetw h=%d st=ok %s\n", a, i, h, describe_ptr(*slot, g).c_str());
             } else {
               Handle hd;
               hd.h = h;
@@ -524,12 +565,12 @@ struct Actor {
                 hd.mess = qs[q]->get_async();
               }
               pend.push_back(hd);
-              printf("R %d %d %s h=%d st=ok\n", a, i, op.c_str(), h);
+              P("R %d %d %s h=%d st=ok\n", a, i, op.c_str(), h);
             }
           } catch (const simgrid::TimeoutException&) {
-            printf("R %d %d %s h=%d st=timeout\n", a, i, op.c_str(), h);
+            P("R %d %d %s h=%d st=timeout\n", a, i, op.c_str(), h);
           } catch (const simgrid::Exception& e) {
-            printf("R %d %d %s h=%d st=fail:%s\n", a, i, op.c_str(), h, typeid(e).name());
+            P("R %d %d %s h=%d st=fail:%s\n", a, i, op.c_str(), h, typeid(e).name());
           }
         } else if (op == "wait") {
           if (pend.empty())
@@ -537,25 +578,30 @@ struct Actor {
           Handle hd = pend[(size_t)num(1) % pend.size()];
           double to = num(2, -1);
           do_wait(hd, to < 0 ? -1 : to * 1e-6, "wait");
+        } else if (op == "waitk") { // Mess handles only: wait_for() whose timeout leaves the handle usable
+          if (pend.empty())
+            continue;
+          Handle hd = pend[(size_t)num(1) % pend.size()];
+          do_wait(hd, num(2) * 1e-6, "waitk", hd.mess != nullptr);
         } else if (op == "test") {
           if (pend.empty())
             continue;
           Handle hd = pend[(size_t)num(1) % pend.size()];
-          printf("C %d %d test h=%d\n", a, i, hd.h);
+          P("C %d %d test h=%d\n", a, i, hd.h);
           bool done = hd.act()->test();
           if (done) {
             std::string d = harvest(hd);
-            printf("R %d %d test h=%d st=1 %s\n", a, i, hd.h, d.c_str());
+            P("R %d %d test h=%d st=1 %s\n", a, i, hd.h, d.c_str());
             drop(hd.h);
           } else
-            printf("R %d %d test h=%d st=0\n", a, i, hd.h);
+            P("R %d %d test h=%d st=0\n", a, i, hd.h);
         } else if (op == "cancel") {
           if (pend.empty())
             continue;
           Handle hd = pend[(size_t)num(1) % pend.size()];
-          printf("C %d %d cancel h=%d\n", a, i, hd.h);
+          P("C %d %d cancel h=%d\n", a, i, hd.h);
           hd.act()->cancel();
-          printf("R %d %d cancel h=%d st=ok\n", a, i, hd.h);
+          P("R %d %d cancel h=%d st=ok\n", a, i, hd.h);
           drop(hd.h);
         } else if (op == "wany") {
           if (pend.empty())
@@ -567,18 +613,18 @@ struct Actor {
             set.push(sg4::ActivityPtr(hd.act()));
             hs += (hs.empty() ? "" : ",") + std::to_string(hd.h);
           }
-          printf("C %d %d wany hs=%s t=%.9g\n", a, i, hs.c_str(), to < 0 ? -1 : to * 1e-6);
+          P("C %d %d wany hs=%s t=%.9g\n", a, i, hs.c_str(), to < 0 ? -1 : to * 1e-6);
           try {
             auto ret = set.wait_any_for(to < 0 ? -1 : to * 1e-6);
             for (auto hd : pend)
               if (hd.act() == ret.get()) {
                 std::string d = harvest(hd);
-                printf("R %d %d wany h=%d st=ok %s\n", a, i, hd.h, d.c_str());
+                P("R %d %d wany h=%d st=ok %s\n", a, i, hd.h, d.c_str());
                 drop(hd.h);
                 break;
               }
           } catch (const simgrid::TimeoutException&) {
-            printf("R %d %d wany h=-1 st=timeout\n", a, i);
+            P("R %d %d wany h=-1 st=timeout\n", a, i);
           } catch (const simgrid::Exception& e) {
             std::string fs;
             while (auto f = set.get_failed_activity()) {
@@ -589,14 +635,14 @@ struct Actor {
                   break;
                 }
             }
-            printf("R %d %d wany h=-1 st=fail:%s failed=%s\n", a, i, typeid(e).name(), fs.c_str());
+            P("R %d %d wany h=-1 st=fail:%s failed=%s\n", a, i, typeid(e).name(), fs.c_str());
           }
         } else {
           fprintf(stderr, "unknown op %s\n", op.c_str());
           abort();
         }
       } catch (const simgrid::Exception& e) { // nothing should arrive here: every call has its own handler
-        printf("X %d %d %s exc=%s\n", a, i, op.c_str(), typeid(e).name());
+        P("X %d %d %s exc=%s\n", a, i, op.c_str(), typeid(e).name());
       }
     }
     // epilogue: complete what is still pending (no handle is dropped while its communication is in flight)
@@ -605,7 +651,7 @@ struct Actor {
       do_wait(hd, -1, "wait");
       i++;
     }
-    printf("D %d\n", a);
+    P("D %d\n", a);
   }
 };
 
@@ -614,9 +660,13 @@ int main(int argc, char** argv)
   sg4::Engine e(&argc, argv);
   setvbuf(stdout, nullptr, _IOLBF, 0);
   std::string line;
-  std::vector<std::vector<std::string>> scripts;
-  std::string mbmodes;
-  int nq = 0, nh = 2;
+  struct Group {
+    std::string mbmodes;
+    int nq = 0;
+    std::vector<std::vector<std::string>> scripts;
+  };
+  std::vector<Group> groups(1);
+  int nh = 2;
   std::vector<std::pair<double, double>> links;
   while (std::getline(std::cin, line)) {
     std::istringstream is(line);
@@ -629,16 +679,19 @@ int main(int argc, char** argv)
         auto p = split(t, ',');
         links.emplace_back(std::stod(p[0]), std::stod(p[1]));
       }
+    } else if (k == "N") {
+      if (not groups.back().scripts.empty())
+        groups.emplace_back();
     } else if (k == "M") {
       while (is >> t)
-        mbmodes += t;
+        groups.back().mbmodes += t;
     } else if (k == "Q") {
-      is >> nq;
+      is >> groups.back().nq;
     } else if (k == "A") {
       std::vector<std::string> ops;
       while (is >> t)
         ops.push_back(t);
-      scripts.push_back(ops);
+      groups.back().scripts.push_back(ops);
     }
   }
   auto* z = e.get_netzone_root()->add_netzone_full("z");
@@ -660,25 +713,32 @@ int main(int argc, char** argv)
     }
   }
   z->seal();
-  std::vector<sg4::Mailbox*> mbs;
-  for (size_t m = 0; m < mbmodes.size(); m++)
-    mbs.push_back(sg4::Mailbox::by_name("mb" + std::to_string(m)));
-  std::vector<sg4::MessageQueue*> qs;
-  for (int q = 0; q < nq; q++)
-    qs.push_back(sg4::MessageQueue::by_name("q" + std::to_string(q)));
-  std::vector<Actor*> actors;
-  for (size_t a = 0; a < scripts.size(); a++) {
-    auto* act = new Actor{(int)a, scripts[a], mbs, qs, {}, 0, 0};
-    actors.push_back(act);
-    hosts[a % hosts.size()]->add_actor("a" + std::to_string(a), [act]() { act->run(); });
+  for (size_t g = 0; g < groups.size(); g++) {
+    const auto& grp = groups[g];
+    std::string pre = "g" + std::to_string(g);
+    std::vector<sg4::Mailbox*> mbs;
+    for (size_t m = 0; m < grp.mbmodes.size(); m++)
+      mbs.push_back(sg4::Mailbox::by_name(pre + "mb" + std::to_string(m)));
+    std::vector<sg4::MessageQueue*> qs;
+    for (int q = 0; q < grp.nq; q++)
+      qs.push_back(sg4::MessageQueue::by_name(pre + "q" + std::to_string(q)));
+    for (size_t a = 0; a < grp.scripts.size(); a++) {
+      auto* act = new Actor{(int)g, (int)a, grp.scripts[a], mbs, qs, {}, 0, 0};
+      hosts[a % hosts.size()]->add_actor(pre + "a" + std::to_string(a), [act]() {
+        if (act->g > 0)
+          sg4::this_actor::sleep_until(act->g * GAP);
+        printf("@%d B %d\n", act->g, act->a);
+        act->run();
+      });
+    }
   }
   e.run();
   for (auto const& s : g_scribs) {
     bool ok = s.slot ? (*s.slot == SCRIBBLE)
                      : (all_eq(s.dst, s.cap, 0x5C) && all_eq(s.dst - GUARD, GUARD, 0xA5) && all_eq(s.dst + s.cap, GUARD, 0xA5));
-    printf("S h=%d st=%s\n", s.h, ok ? "ok" : "bad");
+    printf("@%d S h=%d st=%s\n", s.g, s.h, ok ? "ok" : "bad");
   }
-  printf("END %.9g\n", sg4::Engine::get_clock());
+  printf("@-1 END %.9g\n", sg4::Engine::get_clock());
   fflush(stdout);
   // payloads, slots and buffers are deliberately never freed: comms that are still queued when the engine is destroyed
   // (at exit) may still reference them
